@@ -69,7 +69,7 @@ def gen_permutations(g: Gen):
         raise NotGenerated("slack is not `length - sum(min counts)`")
     g.oblige("table", "slack-is-length-minus-sum-of-minima", [], z3.BoolVal(True), sl[0].lineno)
     neg = [s for s in fn.body if isinstance(s, ast.If) and ast.unparse(s.test) == "slack < 0"]
-    g.oblige("table", "negative-slack-yields-nothing", [], z3.BoolVal(bool(neg) and isinstance(neg[0].body[0], ast.Return) and neg[0].body[0].value is None), sl[0].lineno)
+    g.oblige_text("table", "negative-slack-yields-nothing", bool(neg) and isinstance(neg[0].body[0], ast.Return) and neg[0].body[0].value is None, sl[0].lineno)
     env2 = {"length": L, "slack": slack}
     if set(second) != {"ZeroOrMany", "OneOrMany"}:
         raise NotGenerated(f"second loop kinds {sorted(second)}")
@@ -78,11 +78,11 @@ def gen_permutations(g: Gen):
         # by the slack lemma every solution has c_i <= min_i + slack: the cap must not be smaller, and need not be larger
         g.oblige("table", f"cap-is-min-plus-slack:{kind}", [slack >= 0], val(mx, env2) == SPEC_MIN[kind] + slack, mx.lineno)
     rng = [n for n in ast.walk(fn) if isinstance(n, ast.DictComp) and "range(min_count, max_count + 1)" in ast.unparse(n)]
-    g.oblige("table", "counts-enumerated-inclusively", [], z3.BoolVal(len(rng) == 1), fn.lineno)
+    g.oblige_text("table", "counts-enumerated-inclusively", len(rng) == 1, fn.lineno)
     flt = [n for n in ast.walk(fn) if isinstance(n, ast.GeneratorExp) and ast.unparse(n) == "(p for p in permutations if sum(p) == length)"]
-    g.oblige("table", "only-vectors-summing-to-length", [], z3.BoolVal(len(flt) == 1), fn.lineno)
+    g.oblige_text("table", "only-vectors-summing-to-length", len(flt) == 1, fn.lineno)
     prod = [n for n in ast.walk(fn) if isinstance(n, ast.Call) and ast.unparse(n.func) == "itertools.product"]
-    g.oblige("table", "all-combinations-enumerated", [], z3.BoolVal(len(prod) == 1), fn.lineno)
+    g.oblige_text("table", "all-combinations-enumerated", len(prod) == 1, fn.lineno)
     g.assumptions.add("slack lemma (lemmas/Slack.lean, Lean 4 + Mathlib; checked by `lean` in the thorough tier): the correspondence between its statement and the table obligations is by hand")
     g.assumptions.add("itertools.product / range / sum have their documented meaning")
 
